@@ -298,7 +298,7 @@ def replay(rp):
         print("result:", "the theorems check" if rc == 0 else "a proof obligation fails")
         return 1 if rc != 0 else 0
     c = rp["case"]
-    stream = rp.get("correspondence_stream", "")
+    stream = rp.get("correspondence_stream", "").split("/")[0]
     if stream in TOKEN_STREAMS:
         mo = core.run_driver([rp["line"]])[0]
         io_ = TOKEN_STREAMS[stream](c)
